@@ -145,7 +145,9 @@ Definition exp_visit_While : list sop :=
   PIf "self.state == VisitorState.collect_names" [
     PSub "_" [
       PVisit "body"]] [];
-  PIf "always_entered and all((LEAVES_LOOP not in scope for scope in s2))" [
+  (* `s2 is not None`: fix 192ecfc — outside a function loop_scope() yields None; inside a
+     FunctionScope (the modelled case) the conjunct is always true *)
+  PIf "always_entered and s2 is not None and all((LEAVES_LOOP not in scope for scope in s2))" [
     PMark "LEAVES_SCOPE"] []].
 
 Definition exp_visit_With : list sop :=
